@@ -8,12 +8,16 @@
    T01p_roundtrip_pooled - a table written with a pool, read back from the start, is exactly what was added.
    T09p_wellformed_pooled - it decodes with the independent decoder and passes every clause of the validator.
    T10p_statistics_pooled - its trailer statistics are the truth about the file (the counters that the
-     handler thread updates included). *)
+     handler thread updates included).
+   T20p_fragmentation_pooled - the sequence of buffers handed to write(2) by the pooled writer (data blocks
+     by the handler thread, in order; index and trailer by the caller after the join) is the sequential
+     one, so the finished file does not depend on how write(2) fragments them either. *)
 From Coq Require Import NArith ZArith List Lia.
 From Mtbl Require Import gen.Consts model.Bytes model.Codec model.Order model.Block model.Crc model.Writer model.Reader spec.Leb128 spec.Parse
   proofs.BytesLemmas proofs.CodecProofs proofs.OrderProofs proofs.WriterProofs proofs.MetaProofs proofs.BlockProofs proofs.LookupProofs
   proofs.ReaderProofs proofs.BlockRT proofs.TableRT proofs.ParseProofs proofs.ParseTable proofs.WriterPooled.
-From Mtbl Require props.Properties_C01 props.Properties_C09 props.Properties_C10.
+From Mtbl Require Import model.WriteLoop proofs.WriteLoopProofs.
+From Mtbl Require props.Properties_C01 props.Properties_C09 props.Properties_C10 props.Properties_C20.
 Import ListNotations.
 Local Open Scope N_scope.
 
@@ -110,3 +114,26 @@ Proof.
 Qed.
 End Pooled10.
 Print Assumptions T10p_statistics_pooled.
+
+Section Pooled20.
+Variable compress_default : N -> bytes -> res bytes.
+Variable compress_level : N -> Z -> bytes -> res bytes.
+Hypothesis compress_default_nonempty : forall a raw c, compress_default a raw = Ok c -> c <> [].
+Hypothesis compress_level_nonempty : forall a l raw c, compress_level a l raw = Ok c -> c <> [].
+
+Theorem T20p_fragmentation_pooled : forall o off0 evs w rs os, legal compress_default compress_level o off0 evs ->
+  pooled_run compress_default compress_level o off0 evs = Ok (w, [], rs) ->
+  match write_chunks os [] (writer_chunks w) with
+  | Ok (f, _) => f = writer_bytes w
+  | Abort => True
+  | _ => False
+  end /\
+  (Forall benign os -> exists os', write_chunks os [] (writer_chunks w) = Ok (writer_bytes w, os')).
+Proof.
+  intros o off0 evs w rs os L Hr.
+  apply (proj1 (T01p_pooled_is_sequential compress_default compress_level o off0 evs L w rs)) in Hr.
+  exact (Properties_C20.T20b_file_independent_of_fragmentation compress_default compress_level compress_default_nonempty compress_level_nonempty
+           o off0 (erase evs) w rs os Hr).
+Qed.
+End Pooled20.
+Print Assumptions T20p_fragmentation_pooled.
